@@ -28,28 +28,31 @@ Inductive wfq_run_next :=
 | NxRaise (e : wfq_run_exn).
 
 (* WFQ.run, program point 0: entry (the kernel processes the Initialize event) *)
-Definition gen_WFQ_run_from_0 (s : wfq_run_st) (class_id : Z) (now : Q) (n_active_after : Z) (reset_finish : (Z -> Q) -> (Z -> Q)) (active_weight : Q)
+Definition gen_WFQ_run_from_0 (s : wfq_run_st) (class_id : Z) (now : Q) (n_active : Z) (reset_finish : (Z -> Q) -> (Z -> Q)) (active_weight : Q)
   : wfq_run_st * list wfq_run_fx * wfq_run_next :=
   ({| wr_vtime := (wr_vtime s); wr_last_time := (wr_last_time s); wr_arrivals := (wr_arrivals s); wr_finish_times := (wr_finish_times s); wr_class_count := (wr_class_count s) |}, [], (NxYield RqStoreGet PP1)).
 
 (* WFQ.run, program point 1: resumed after line 64: `item: PriorityItem = yield self.store.get()`; objects bound: item *)
-Definition gen_WFQ_run_from_1 (s : wfq_run_st) (class_id : Z) (now : Q) (n_active_after : Z) (reset_finish : (Z -> Q) -> (Z -> Q)) (active_weight : Q)
+Definition gen_WFQ_run_from_1 (s : wfq_run_st) (class_id : Z) (now : Q) (n_active : Z) (reset_finish : (Z -> Q) -> (Z -> Q)) (active_weight : Q)
   : wfq_run_st * list wfq_run_fx * wfq_run_next :=
   ({| wr_vtime := (wr_vtime s); wr_last_time := (wr_last_time s); wr_arrivals := (wr_arrivals s); wr_finish_times := (wr_finish_times s); wr_class_count := (wr_class_count s) |}, [FxUnwrap], (NxYield RqChild PP2)).
 
 (* WFQ.run, program point 2: resumed after line 66: `yield env.process(self.send_packet(packet))`; objects bound: packet *)
-Definition gen_WFQ_run_from_2 (s : wfq_run_st) (class_id : Z) (now : Q) (n_active_after : Z) (reset_finish : (Z -> Q) -> (Z -> Q)) (active_weight : Q)
+Definition gen_WFQ_run_from_2 (s : wfq_run_st) (class_id : Z) (now : Q) (n_active : Z) (reset_finish : (Z -> Q) -> (Z -> Q)) (active_weight : Q)
   : wfq_run_st * list wfq_run_fx * wfq_run_next :=
   let weight_sum1 := ((0 # 1) + active_weight)%Q in
   let vtime1 := ((wr_vtime s) + ((now - (wr_last_time s))%Q / weight_sum1)%Q)%Q in
   let class_count1 := (gen_upd (wr_class_count s) class_id (((wr_class_count s) class_id) - (1)%Z)%Z) in
-  let fx1 :=
-    (if (Z.eqb (class_count1 class_id) (0)%Z)
-     then [(FxActiveRemove class_id)]
-     else []) in
-  let '(vtime2, finish_times2) :=
-    (if (Z.eqb n_active_after (0)%Z)
-     then let finish_times1 := (reset_finish (wr_finish_times s)) in
-          ((0 # 1), finish_times1)
-     else (vtime1, (wr_finish_times s))) in
-  ({| wr_vtime := vtime2; wr_last_time := now; wr_arrivals := (wr_arrivals s); wr_finish_times := finish_times2; wr_class_count := class_count1 |}, fx1, (NxYield RqStoreGet PP1)).
+  (if (Z.eqb (class_count1 class_id) (0)%Z)
+   then let '(vtime2, finish_times2) :=
+          (if (Z.eqb (n_active + (-1))%Z (0)%Z)
+           then let finish_times1 := (reset_finish (wr_finish_times s)) in
+                ((0 # 1), finish_times1)
+           else (vtime1, (wr_finish_times s))) in
+        ({| wr_vtime := vtime2; wr_last_time := now; wr_arrivals := (wr_arrivals s); wr_finish_times := finish_times2; wr_class_count := class_count1 |}, [(FxActiveRemove class_id)], (NxYield RqStoreGet PP1))
+   else let '(vtime2, finish_times2) :=
+          (if (Z.eqb n_active (0)%Z)
+           then let finish_times1 := (reset_finish (wr_finish_times s)) in
+                ((0 # 1), finish_times1)
+           else (vtime1, (wr_finish_times s))) in
+        ({| wr_vtime := vtime2; wr_last_time := now; wr_arrivals := (wr_arrivals s); wr_finish_times := finish_times2; wr_class_count := class_count1 |}, [], (NxYield RqStoreGet PP1))).
